@@ -129,9 +129,9 @@ type mutateGen struct {
 }
 
 func newMutateGen(seed int64, tier string) *mutateGen {
-	g := &mutateGen{seed: seed, tier: tier, n: 12000}
+	g := &mutateGen{seed: seed, tier: tier, n: 6000}
 	if tier == "thorough" {
-		g.n = 200000
+		g.n = 100000
 	}
 	for _, s := range corpus {
 		g.toks = append(g.toks, g12lib.Tokens(s))
@@ -194,11 +194,7 @@ func (g *mutateGen) Case(i int) genCase {
 			if len(lits) > 0 {
 				p = lits[rnd.Intn(len(lits))]
 			}
-			c := allClasses[rnd.Intn(len(allClasses))]
-			for c.Col {
-				c = allClasses[rnd.Intn(len(allClasses))]
-			}
-			toks[p] = c.SQL
+			toks[p] = pick(rnd, mixClasses).SQL
 		case "delete-range":
 			q := p + 1 + rnd.Intn(4)
 			if q > len(toks) {
